@@ -486,6 +486,26 @@ impl St {
             ("bv", "from_bits") if a.len() > 1 => Some(Obj::Bv(BitVector::from_bits(hinted(bits(a[0])?, a[1])?))),
             ("bv", "from_bits") => Some(Obj::Bv(BitVector::from_bits(bits(a[0])?))),
             ("bv", "build") => BitVector::build_from_bits(bits(a[0])?, flag(a[1])?, flag(a[2])?, flag(a[3])?).ok().map(Obj::Bv),
+            ("r9", "new") if a.len() > 3 => {
+                let mut r = Rank9Sel::from_bits(hinted(bits(a[0])?, a[3])?);
+                if flag(a[1])? { r = r.select1_hints(); }
+                if flag(a[2])? { r = r.select0_hints(); }
+                Some(Obj::R9(r))
+            }
+            ("r9", "build") if a.len() > 4 => Rank9Sel::build_from_bits(hinted(bits(a[0])?, a[4])?, flag(a[1])?, flag(a[2])?, flag(a[3])?).ok().map(Obj::R9),
+            ("da", "new") if a.len() > 3 => {
+                let mut d = DArray::from_bits(hinted(bits(a[0])?, a[3])?);
+                if flag(a[1])? { d = d.enable_rank(); }
+                if flag(a[2])? { d = d.enable_select0(); }
+                Some(Obj::Da(d))
+            }
+            ("da", "build") if a.len() > 4 => DArray::build_from_bits(hinted(bits(a[0])?, a[4])?, flag(a[1])?, flag(a[2])?, flag(a[3])?).ok().map(Obj::Da),
+            ("sa", "new") if a.len() > 2 => {
+                let mut s = SArray::from_bits(hinted(bits(a[0])?, a[2])?);
+                if flag(a[1])? { s = s.enable_rank(); }
+                Some(Obj::Sa(s))
+            }
+            ("sa", "build") if a.len() > 4 => SArray::build_from_bits(hinted(bits(a[0])?, a[4])?, flag(a[1])?, flag(a[2])?, flag(a[3])?).ok().map(Obj::Sa),
             ("r9", "new") => {
                 let mut r = Rank9Sel::new(BitVector::from_bits(bits(a[0])?));
                 if flag(a[1])? { r = r.select1_hints(); }
